@@ -9,6 +9,10 @@ use verif_env::HashSet;
 #[path = "@VERIF_ENV@/strings.rs"]
 mod verif_strings;
 use verif_strings::String;
+const VERIF_VEC_CAP: usize = 4;
+#[path = "@VERIF_ENV@/vec_fixed.rs"]
+mod verif_vec;
+use verif_vec::Vec;
 #[path = "@VERIF_ENV@/eager.rs"]
 mod verif_eager;
 use verif_eager::FlatMapEager;
@@ -32,6 +36,7 @@ impl FormatError { pub fn new<A, B>(code: std::string::String, _cause: A, _actio
 //@end
 //@extract vrp-pragmatic/src/format/problem/model.rs :: enum Objective attrs=drop
 //@subst "#[serde(skip_serializing_if = \"Option::is_none\")]" => "" count=2
+//@subst "objectives: Vec<Objective>," => "objectives: std::vec::Vec<Objective>," count=1
 //@end
 //@extract vrp-pragmatic/src/format/problem/model.rs :: enum MultiStrategy attrs=drop
 //@end
@@ -159,7 +164,8 @@ mod h {
     /// E1605: a job's value or a task's order below 1
     #[kani::proof] #[kani::unwind(10)]
     fn e1605_values_and_orders_at_least_one() {
-        let p = Problem { plan: Plan { jobs: [job(4, true), job(5, false)] } };
+        let mut j0 = job(4, true); j0.replacements = None; // (two symbolic task lists: three do not finish in CBMC)
+        let p = Problem { plan: Plan { jobs: [j0, job(5, false)] } };
         let bad = |j: &Job| j.value.map_or(false, |v| v < 1.) || orders(j).iter().any(|o| o.map_or(false, |o| o < 1));
         expect(check_e1605_check_positive_value_and_order(&ValidationContext { problem: &p }), bad(&p.plan.jobs[0]) || bad(&p.plan.jobs[1]), b"E1605");
     }
